@@ -50,7 +50,7 @@ def main():
         finally:
             shutil.rmtree(tmp, ignore_errors=True)
     subprocess.run(["git", "-C", VERIF, "checkout", "--", "evidence"], capture_output=True)
-    missed = [r[0] for r in rows if not r[1]]
+    missed = [r[0] for r in rows if not r[1] and not json.load(open(os.path.join(VERIF, "seeded", r[0], "meta.json"))).get("equivalent_since")]
     print(f"{len(rows)} seeded changes, undetected: {missed}")
 
 
